@@ -734,9 +734,51 @@ func runCrash(c CrashCase, child string) (res vt.Result, fail *vt.Fail) {
 			}
 		}
 	}
+	// the same boundaries once more, this time the system call FAILS (EIO / ENOSPC)
+	// and the process lives on: the operation may report the error, but the file is
+	// the old or the new complete document, and the new one if it reported success
+	faulted := 0
+	for k, pt := range pts {
+		if !crash.Faultable(pt.Syscall) {
+			continue
+		}
+		errno := []string{"EIO", "ENOSPC"}[k%2]
+		restore()
+		// every other faulted run is followed by the caller's retry of the same call
+		retried := k%4 >= 2
+		sc.Retry = retried
+		exit, err := r.RunFaulted(sc, pt, errno)
+		sc.Retry = false
+		if err != nil {
+			// the runtime itself may abort on a failed call it depends on: not judged
+			continue
+		}
+		faulted++
+		res.Evals++
+		res.SubNonTrivial = append(res.SubNonTrivial, fmt.Sprintf("%s#fault%d", vt.MustJSON(c), k))
+		got, rerr := os.ReadFile(path)
+		switch {
+		case rerr != nil && old == nil && exit != 0:
+		case rerr != nil:
+			return res, vt.Failf("C18/fault-lost-file", "%s on syscall %d/%d (%s), operation returned %s: the config file is gone: %v", errno, k+1, len(pts), pt.Line, exitName(exit), rerr)
+		case bytes.Equal(got, newBytes):
+		case bytes.Equal(got, old) && exit != 0:
+		case bytes.Equal(got, old):
+			return res, vt.Failf("C18/fault-swallowed", "%s on syscall %d/%d (%s) during %s (retried after an error: %v): the operation returned nil but the config file still holds the old document", errno, k+1, len(pts), pt.Line, c.Step.Op, retried)
+		default:
+			return res, vt.Failf("C18/fault-damaged-file", "%s on syscall %d/%d (%s), operation returned %s: the config file holds %d bytes that are neither the old (%d) nor the new (%d) document", errno, k+1, len(pts), pt.Line, exitName(exit), len(got), len(old), len(newBytes))
+		}
+	}
 	res.NonTrivial = len(res.SubNonTrivial) > 0
-	res.Classes = []string{"crash-op-" + c.Step.Op, fmt.Sprintf("crash-points-%d", len(pts))}
+	res.Classes = append(res.Classes, "crash-op-"+c.Step.Op, fmt.Sprintf("crash-points-%d", len(pts)), fmt.Sprintf("failing-syscalls-%d", faulted))
 	return res, nil
+}
+
+func exitName(code int) string {
+	if code == 0 {
+		return "nil"
+	}
+	return "an error"
 }
 
 func TestMain(m *testing.M) {
